@@ -306,8 +306,24 @@ def fp_text(file_path):
     return path_str(file_path) if file_path is not None else ""
 
 
+def _native_severity(v):
+    """Native rendering only: the model's severity string 'error' is the enum member Severity.ERROR."""
+    try:
+        from src.core.types import Severity
+        if isinstance(v.severity, str):
+            object.__setattr__(v, "severity", Severity(v.severity))
+    except Exception:  # noqa
+        pass
+    return v
+
+
+# same record (same SMT sort) as contracts._common.ViolationT; natively built with the real Severity member
+MNViolationT = Rec("Violation", cls=ViolationT.cls, pycls=ViolationT.pycls, **ViolationT.fields)
+MNViolationT.native_post = _native_severity
+
+
 def magic_violation(rule_id, file_path, line, column, value, suggestion):
-    return mk(ViolationT, rule_id=rule_id, file_path=fp_text(file_path), line=line, column=column,
+    return mk(MNViolationT, rule_id=rule_id, file_path=fp_text(file_path), line=line, column=column,
               message=magic_message(value), severity="error", suggestion=suggestion)
 
 
